@@ -287,7 +287,7 @@ struct Budget {
 fn budget(tier: Tier) -> Budget {
     match tier {
         Tier::Quick => Budget { objects: driver::scale(4800), offset_cap: 1500, scripts: 60 },
-        Tier::Thorough => Budget { objects: driver::scale(240000), offset_cap: 20000, scripts: 200 },
+        Tier::Thorough => Budget { objects: driver::scale(480000), offset_cap: 20000, scripts: 200 },
     }
 }
 
